@@ -211,6 +211,14 @@ func RunBetaScale(cfgc core.Config, scope core.Scope) *core.Result {
 				zeroStore := func(n ast.Node) bool {
 					found := false
 					ast.Inspect(n, func(y ast.Node) bool {
+						// a store under a further condition is not a zero fill
+						// of this arm
+						switch y.(type) {
+						case *ast.IfStmt, *ast.SwitchStmt:
+							if y != n {
+								return false
+							}
+						}
 						if as, ok := y.(*ast.AssignStmt); ok && as.Tok == token.ASSIGN && len(as.Lhs) == 1 && len(as.Rhs) == 1 && isElem(as.Lhs[0]) {
 							if tv, ok := info.Types[as.Rhs[0]]; ok && tv.Value != nil && isZeroConst(tv.Value) {
 								found = true
@@ -231,6 +239,10 @@ func RunBetaScale(cfgc core.Config, scope core.Scope) *core.Result {
 					case *ast.CaseClause:
 						for _, e := range x.List {
 							for _, st := range x.Body {
+								switch st.(type) {
+								case *ast.IfStmt, *ast.SwitchStmt:
+									continue
+								}
 								if zeroStore(st) {
 									zeroArm[e] = true
 								}
